@@ -8,14 +8,17 @@ META = dict(
     id='C16',
     model_run='PG.Model.SchedRun.run',
     model_targets=['Model/SchedRun.vo'],
-    instance_obligations=[
-        'C16_instance (Proofs/SchedInstance.v: disciplined Gen.SchedProg.progs = true by vm_compute, on the programs regenerated from the current source; includes footprint_ok: the reads/writes the translator derived from the AST equal the declared footprint of every named effect)'],
+    instance_obligations=[],   # the per-run instance obligation is the theorem C16_instance of Properties/C16.v (Proofs/SchedInstance.v, vm_compute on the regenerated programs)
     technique=('Coq proof over an interleaving semantics of a small shared-memory language (invariants preserved by one act of an arbitrary thread, hence by '
                'every schedule, any number of threads) + programs regenerated from the source by a fail-closed ast translator + trace correspondence under a '
                'deterministic statement-granular scheduler + direct oracle on the real objects'),
     design_ref='DESIGN.md §5 C16',
-    level_text='',
-    level_note='',
+    level_text=('Theorems (every program set accepted by the decidable discipline check, every configuration, any number of workers and scripts, every schedule): '
+                'mutual exclusion; ids 1..n each once, never more than requested, exactly the requested number once full, one study per name; a trial is reported to the algorithm '
+                'at most once in every state and exactly once iff completed and feasible at quiescence; counters consistent at quiescence; best trial feasible and maximal; '
+                'one pending trial per group and a worker only holds trials of its group.  The programs are regenerated from the source on every run and the instance obligation is re-checked.'),
+    level_note=('Tie: fail-closed translator + footprint obligation + trace correspondence (final state and program-counter sequence) under a deterministic statement-granular scheduler + direct oracle. '
+                'Not proved: num_proposals/num_feedbacks versus the report list (reset by setup); evolution population contents.'),
     rule=('a case is (configuration: threads, num_examples, groups, algorithm kind, early-stopping policy, per-worker scripts; a schedule = the sequence of thread choices '
           'at every scheduling point).  distinct by (configuration, schedule); non-trivial when at least two threads were interleaved inside a critical section or an '
           'API entry (at least one context switch away from a thread that had not finished its current call)'),
@@ -143,7 +146,7 @@ class Run:
          linecache.getline(frame.f_code.co_filename, frame.f_lineno).strip() == 'self._num_feedbacks += 1':
         fb = self.cur_fb[w.idx]
         self.fed_log.append((fb._study, fb.id))
-    self.ctl = core.Controller([mk(i) for i in range(n)], strategy_fn, gate_of, lm.accept_code, acquire_label=lm.acquire_label, step_timeout=20.0)
+    self.ctl = core.Controller([mk(i) for i in range(n)], strategy_fn, gate_of, lm.accept_code, acquire_label=lm.acquire_label, step_timeout=60.0)
     self.ctl.after_gate = after_gate
     self.ctl.run()
     for w in self.ctl.workers:
@@ -448,6 +451,7 @@ def run(ctx):
   import glob
   from harness.lib.common import VERIF
   ncorpus = 0
+  sweep_cases = []
   for f in sorted(glob.glob(os.path.join(VERIF, 'corpus', 'C16', '*.json'))):
     w = json.load(open(f))
     r = execute(ctx, w['cfg'], lm, env, lambda w=w: core.replay_strategy(w['decisions'], then=core.random_strategy(random.Random(1))))
@@ -455,8 +459,34 @@ def run(ctx):
     if r.ctl.outcome in ('finished', 'deadlock'):
       record_hits(ctx, r, w['cfg'], dict(kind='corpus', file=os.path.basename(f)))
   ctx.extra['corpus_replayed'] = ncorpus
+  # systematic single-preemption sweep: for every gate act, a schedule that switches away right after that act
+  # (thorough: every gate; quick: a seeded sample), with two co-workers of one group so that the shared paths are exercised
+  if info is not None:
+    sweep = list(gates) if ctx.thorough else rng.sample(gates, min(12, len(gates)))
+    fired = 0
+    for pi in sweep:
+      cfg = gen_cfg(rng)
+      for w in cfg['workers'][:2]:
+        w['group'], w['gnone'] = 0, False
+      seed = rng.randrange(1 << 30)
+      strat = [None]
+      def fac(pi=pi, seed=seed):
+        strat[0] = core.preempt_at_strategy(random.Random(seed), lambda lab: lab[0] == 'L' and (lab[1], lab[2]) == tuple(pi))
+        return strat[0]
+      r = execute(ctx, cfg, lm, env, fac)
+      sdesc = dict(kind='preempt-sweep', after=list(pi), seed=seed)
+      if strat[0].state['fired']:
+        fired += 1
+      ctx.hist('strategy', 'preempt-sweep')
+      if r.ctl.outcome in ('finished', 'deadlock'):
+        record_hits(ctx, r, cfg, sdesc)
+        ctx.count((json.dumps(cfg, sort_keys=True), tuple(r.ctl.decisions)), nontrivial=nontrivial(r.ctl.trace, len(cfg['workers'])), kind='preempt-sweep')
+        if r.ctl.outcome == 'finished' and not lm.unmapped:
+          sweep_cases.append((r.model_case(), r.observed(), describe_case(cfg, sdesc)))
+      lm.unmapped = []
+    ctx.extra['preempt_sweep'] = dict(gate_acts=len(gates), tried=len(sweep), preemption_fired=fired)
   nsched = ctx.scale(110, 4000)
-  budget = ctx.scale(75.0, 1200.0)
+  budget = ctx.scale(70.0, 1000.0)
   t_start = time.time()
   cases, impl_outs, descrs = [], [], []
   est = 400
@@ -489,6 +519,8 @@ def run(ctx):
         lm.unmapped = []
         continue
       cases.append(r.model_case()); impl_outs.append(r.observed()); descrs.append(d)
+  for (mc, ob, d) in sweep_cases:
+    cases.append(mc); impl_outs.append(ob); descrs.append(d)
   if info is not None:
     bad_cls = [k for k in lm.untraced if k[1] in ('done', 'skip', '_add_measurement', 'next', 'create_trial', '_complete_trial', '_mark_completed', 'propose', 'feedback', 'setup', '_propose', '_feedback', '_setup')]
     ctx.extra['untranslated_functions_seen'] = {'%s:%s' % k: v for k, v in sorted(lm.untraced.items())}
